@@ -110,6 +110,12 @@ add("C18", "vp_sig",
     "Trusted: the stated tolerances; integer inputs are limited to 0.15 full scale (overflow on full-scale integer input is outside the statement).",
     "DESIGN.md §4 C18")
 
+add("C09", "vp_graph (+ libFuzzer target graph in the thorough tier)",
+    "bounded-exhaustive enumeration of small multigraphs + proptest graphs against a reachability / topological-order / functional-evaluation model with instrumented nodes",
+    "Every directed multigraph on up to 3 nodes (multiplicity 0..2 on each ordered pair incl. self-loops) x every output node, every digraph with self-loops on 4 nodes x every output node (thorough: every loop-free digraph on 5 nodes), single removals with slot reuse on stable graphs, and random graphs of up to 14 nodes with parallel edges, self-loops, removals, late nodes and edges, consecutive process calls with different output nodes on one reused processor of random capacity, Graph and StableGraph: processed set == reverse reachability, each node once; each invocation's input pointers == one per incoming edge from a different node, never the node's own buffers; for acyclic upstream subgraphs inputs first and buffers == functional evaluation; sources()/sinks() == live nodes without incoming / outgoing edges.",
+    "Trusted: petgraph 0.5.1 as resolved by the repository's lock file; the harness edge list and reachability model. Input order is unspecified and not asserted.",
+    "DESIGN.md §4 C09")
+
 PENDING_REASON = "check not yet built in this round (design in DESIGN.md §4); nothing is claimed for it until its check is registered"
 
 def main():
